@@ -38,7 +38,7 @@ man = {
                  "kind_free_text": "forking symbolic executor over go/ssa built from /repo's working tree on every run; scalars are QF_UFBV terms, crypto/codec loops are uninterpreted functions with pairwise-instantiated axioms; z3 4.8.12 decides every query; native replay through go test -overlay"}],
     "checks": checks,
     "not_applicable": na_list,
-    "notes": "Exit codes: 0 holds within bounds, 1 replayed violation (VIOLATION line), 2 harness/load failure or vacuous, 3 inconclusive (unknown, bound hit, spurious counterexample). Known findings are listed in /verif/known_findings.jsonl.",
+    "notes": "Exit codes: 0 holds within bounds, 1 replayed violation (VIOLATION line), 2 harness/load failure or vacuous, 3 inconclusive (unknown, bound hit, spurious counterexample). Known findings (kind=known: KNOWN-FINDING line, exit 0) and repaired defects (kind=fixed with the fix: commit in /repo; suppress nothing) are listed in /verif/known_findings.jsonl.",
 }
 json.dump(man, open(os.path.join(root, "MANIFEST.json"), "w"), indent=1)
 print("claimed", len(claimed), "not_applicable", len(na_list))
